@@ -24,7 +24,9 @@ type restCase struct {
 	Query  string         `json:"query,omitempty"`
 	KeyHex string         `json:"key_hex,omitempty"` // what the secret decodes to (oracle side)
 	Fresh  bool           `json:"fresh_connection"`
-	Note   string         `json:"note,omitempty"`
+	// Framing of the request body: "" (Content-Length), "chunked", "expect-100"
+	Framing string `json:"framing,omitempty"`
+	Note    string `json:"note,omitempty"`
 }
 
 func fStr(f map[string]any, k string) string {
@@ -127,7 +129,7 @@ func judgeREST(c *Ctx, srv *server, k restCase) {
 		path += "?" + k.Query
 	}
 	t0 := time.Now().Unix()
-	res := srv.do(k.Method, path, body, k.Fresh, 60*time.Second)
+	res := srv.doFramed(k.Method, path, body, k.Fresh, 60*time.Second, k.Framing)
 	t1 := time.Now().Unix()
 	r.Eval(1)
 	r.Count("requests:"+k.EP, 1)
@@ -354,7 +356,14 @@ func spellAlgo(rng *gen.RNG) (string, bool) {
 }
 
 func restSecret(rng *gen.RNG) (string, []byte) {
-	key := rng.Bytes(gen.Pick(rng, []int{1, 10, 20, 32, 64, 65, 100}))
+	key := rng.Bytes(gen.Pick(rng, []int{1, 10, 20, 25, 32, 40, 64, 65, 80, 100}))
+	switch rng.Intn(10) {
+	case 0:
+		// keys whose base32 text also reads as hex / decimal / a single repeated letter (lengths whose base32 text has 40, 64, 128 … characters)
+		key = gen.AmbiguousKey(rng, gen.Pick(rng, []int{5, 10, 20, 25, 40, 80}))
+	case 1:
+		key = gen.SecretBytes(rng, gen.Pick(rng, []int{20, 25, 40, 80}), rng.Intn(2)) // all-zero / all-0xFF
+	}
 	s := gen.Spell(rng, ref.Base32Encode(key), rng.Intn(gen.NSpellings))
 	if strings.TrimSpace(s) == "" {
 		s = ref.Base32Encode(key)
@@ -367,6 +376,14 @@ func c18Cases(c *Ctx, n int) []restCase {
 	var out []restCase
 	add := func(k restCase) {
 		k.Fresh = rng.Intn(5) == 0
+		if k.F != nil {
+			switch rng.Intn(8) {
+			case 0:
+				k.Framing = framingChunked
+			case 1:
+				k.Framing = framingExpect100
+			}
+		}
 		out = append(out, k)
 	}
 	names := liveNames()
